@@ -23,7 +23,7 @@ from vlib import advexec, gen, runner
 
 PROPERTY = "C14"
 LEVEL = "exploration"
-TIMEOUT = {"quick": 900, "thorough": 5400}
+TIMEOUT = {"quick": 1500, "thorough": 7200}
 RULE = (
     "planner calls: shapes of 1-3 dims with sizes from a set rich in primes and powers (1..1000), source/target chunks "
     "uniform in [1, dim], itemsize in {1,2,4,8,16}, max_mem from tight (= the larger of source/target chunk) to loose, "
